@@ -27,6 +27,8 @@ structure MachineObs where
   txMeta : Meta := []
   accountMeta : Map String Meta := []
   calls : List MCall := []
+  /-- the attempt (1 = first, 2… = retries) during which the runtime ran -/
+  attempt : Nat := 1
   deriving DecidableEq, Repr, Inhabited
 
 structure MachineResult where
@@ -115,10 +117,9 @@ def replayCalls : List MCall → Prog Unit
   | .balances q :: r => .call (.getBalances q) fun _ => replayCalls r
   | .account a :: r => .call (.getAccount a) fun _ => replayCalls r
 
-/-- The observation an attempt consumes: the first attempt the first one, the
-    retry (after a deadlock) the last one. -/
+/-- The observation an attempt consumes: the one recorded during that attempt. -/
 def pickObs (obs : List MachineObs) (attempt : Nat) : Option MachineObs :=
-  if attempt ≤ 1 then obs.head? else obs.getLast?
+  obs.find? (fun o => o.attempt == attempt)
 
 def scriptMachine (obs : List MachineObs) (attempt : Nat) : Prog MachineResult :=
   match pickObs obs attempt with
@@ -309,23 +310,25 @@ structure Outcome where
   trace : List String
   deriving Repr, Inhabited
 
+/-- The context was cancelled by a fault at an earlier call. -/
+def alreadyCanceled (f : Faults) (n : Nat) : Bool :=
+  f.any fun x => decide (x.kind = .cancel ∧ x.at_ < n)
+
 /-- The `Rollback` call: counted, its own failure is only logged. After a
     cancelled context the transaction is already gone (`sql.ErrTxDone`). -/
-def rollbackEntry (h : String) (f : Option Fault) (n : Nat) : String :=
-  match f with
-  | some x =>
-    if x.kind = .cancel ∧ x.at_ < n then traceEntry h "Rollback" "tx-done"
-    else if x.at_ = n then traceEntry h "Rollback" x.kind.err.toString
-    else traceEntry h "Rollback" ""
-  | none => traceEntry h "Rollback" ""
+def rollbackEntry (h : String) (f : Faults) (n : Nat) : String :=
+  if alreadyCanceled f n = true then traceEntry h "Rollback" "tx-done"
+  else match fires f n with
+    | some kind => traceEntry h "Rollback" kind.err.toString
+    | none => traceEntry h "Rollback" ""
 
 /-- Rolled back: tables as before, sequences as consumed. -/
-def rolledBack (s : State) (st : RunSt) (h : String) (f : Option Fault) (resp : Resp) : Outcome :=
+def rolledBack (s : State) (st : RunSt) (h : String) (f : Faults) (resp : Resp) : Outcome :=
   { state := { s with seq := st.seq }, resp := resp,
     trace := st.trace ++ [rollbackEntry h f (st.n + 1)] }
 
 /-- `Commit` (call number `st.n + 1`). -/
-def commitOrFail (s : State) (st : RunSt) (h : String) (f : Option Fault) (commitFault : Bool) (log : Log) : Outcome :=
+def commitOrFail (s : State) (st : RunSt) (h : String) (f : Faults) (commitFault : Bool) (log : Log) : Outcome :=
   match fires f (st.n + 1) with
   | some kind =>
     { state := { s with seq := st.seq }, resp := { err := some (.store kind.err) },
@@ -340,26 +343,20 @@ def commitOrFail (s : State) (st : RunSt) (h : String) (f : Option Fault) (commi
 
 /-- A failed attempt: `Rollback`, except after a panic — there is no deferred
     Rollback, the transaction handle is simply abandoned. -/
-def failedAttempt (s : State) (st : RunSt) (h : String) (f : Option Fault) (e : Err) : Outcome :=
+def failedAttempt (s : State) (st : RunSt) (h : String) (f : Faults) (e : Err) : Outcome :=
   if e = .panic then { state := { s with seq := st.seq }, resp := { err := some .panic }, trace := st.trace }
   else rolledBack s st h f { err := some e }
 
 /-- A successful attempt: `Rollback` for a dry run, `Commit` otherwise. -/
-def finish (s : State) (st : RunSt) (h : String) (f : Option Fault) (commitFault dry : Bool) (log : Log) : Outcome :=
+def finish (s : State) (st : RunSt) (h : String) (f : Faults) (commitFault dry : Bool) (log : Log) : Outcome :=
   if dry then rolledBack s st h f { log := some log } else commitOrFail s st h f commitFault log
-
-/-- The context was cancelled by the fault at an earlier call. -/
-def alreadyCanceled (f : Option Fault) (n : Nat) : Bool :=
-  match f with
-  | some x => decide (x.kind = .cancel ∧ x.at_ < n)
-  | none => false
 
 /-- `recordedOutcome`: after an attempt carrying an idempotency key failed for a
     reason of its own, the key is looked up once more — on the PARENT (root) handle,
     i.e. in the committed tables — as store call number `n`: a log found answers the
     request (hit, or the input-mismatch error); not found, or a failing lookup, keeps
     the attempt's own error `o`. -/
-def recordedOutcome (op : Op) (f : Option Fault) (s : State) (n : Nat) (o : Outcome) : Outcome :=
+def recordedOutcome (op : Op) (f : Faults) (s : State) (n : Nat) (o : Outcome) : Outcome :=
   if op.ik = "" then o else
   if alreadyCanceled f n = true then { o with trace := o.trace ++ [traceEntry "root" "ReadLogWithIdempotencyKey" "canceled"] }
   else match fires f n with
@@ -377,30 +374,88 @@ def recordedOutcome (op : Op) (f : Option Fault) (s : State) (n : Nat) (o : Outc
                  trace := o.trace ++ [traceEntry "root" "ReadLogWithIdempotencyKey" ""] }
 
 /-- A failed attempt followed by `recordedOutcome` (a panic skips both the Rollback and the lookup). -/
-def failedThenRecorded (op : Op) (s : State) (st : RunSt) (h : String) (f : Option Fault) (e : Err) : Outcome :=
+def failedThenRecorded (op : Op) (s : State) (st : RunSt) (h : String) (f : Faults) (e : Err) : Outcome :=
   if e = .panic then failedAttempt s st h f e
   else recordedOutcome op f s (st.n + 2) (failedAttempt s st h f e)
 
-/-- `forgeLogRetry` → `runTx` on a fresh transaction `t2` (the injected fault is
-    one-shot, so the loop body runs once; an armed COMMIT failure hits this attempt's
-    `Commit` when the first attempt never reached its own; the `ErrIdempotencyKeyConflict` branch of
-    the loop needs a concurrent writer and is out of scope of sequential histories:
-    the conflict is reported as the error it is). Any failure of `runTx` other than a
-    deadlock ends in `recordedOutcome`. -/
-def retry (strict : Bool) (op : Op) (f : Option Fault) (commitFault : Bool) (s : State) (st : RunSt) : Outcome :=
-  match fires f (st.n + 1) with
-  | some kind =>
-    { state := { s with seq := st.seq }, resp := { err := some (.store kind.err) },
-      trace := st.trace ++ [traceEntry "root" "BeginTX" kind.err.toString] }
-  | none =>
-    match run op.now "t2" f (runLog strict op.kind op.ik op.ihash op.sv 2)
-            { db := s.db, seq := st.seq, n := st.n + 1, trace := st.trace ++ ["root BeginTX"] } with
-    | (.error e, st1) => failedThenRecorded op s st1 "t2" f e
-    | (.ok log, st1) =>
-      let o := finish s st1 "t2" f commitFault op.dry log
-      if o.resp.err.isSome then recordedOutcome op f s (st1.n + 2) o else o
+/-- Result of one `runTx` (an attempt of the retry loop): a final outcome, or an
+    error the loop has to classify (with the sequences, call count and trace so far). -/
+inductive TxResult where
+  | done (o : Outcome)
+  | failed (e : Err) (seq : Seqs) (n : Nat) (trace : List String)
+  deriving Repr, Inhabited
 
-def forgeLog (strict : Bool) (op : Op) (f : Option Fault) (commitFault : Bool) (s : State) : Outcome :=
+/-- `runTx` on a fresh transaction `t<i>`: BeginTX, `runLog`, then Rollback (error /
+    dry run) or Commit. Every failure — BeginTX and Commit included — is returned to
+    the loop. -/
+def runTx (strict : Bool) (op : Op) (f : Faults) (commitFault : Bool) (s : State) (i tx : Nat)
+    (seq : Seqs) (n : Nat) (trace : List String) : TxResult :=
+  let h := "t" ++ toString tx
+  match fires f (n + 1) with
+  | some kind => .failed (.store kind.err) seq (n + 1) (trace ++ [traceEntry "root" "BeginTX" kind.err.toString])
+  | none =>
+    match run op.now h f (runLog strict op.kind op.ik op.ihash op.sv i)
+            { db := s.db, seq := seq, n := n + 1, trace := trace ++ ["root BeginTX"] } with
+    | (.error e, st1) =>
+      if e = .panic then .done { state := { s with seq := st1.seq }, resp := { err := some .panic }, trace := st1.trace }
+      else .failed e st1.seq (st1.n + 1) (st1.trace ++ [rollbackEntry h f (st1.n + 1)])
+    | (.ok log, st1) =>
+      if op.dry then .done (rolledBack s st1 h f { log := some log })
+      else match fires f (st1.n + 1) with
+        | some kind =>
+          .failed (.store kind.err) st1.seq (st1.n + 1) (st1.trace ++ [traceEntry h "Commit" kind.err.toString])
+        | none =>
+          if commitFault then
+            .failed .commitFailed st1.seq (st1.n + 1) (st1.trace ++ [traceEntry h "Commit" "commit-failed"])
+          else .done { state := { db := st1.db, seq := st1.seq }, resp := { log := some log },
+                       trace := st1.trace ++ [traceEntry h "Commit" ""] }
+
+/-- The `ErrIdempotencyKeyConflict` branch of the loop: the key is read again on
+    the root handle (call `n`); the log must be there (otherwise the Go code panics
+    with "incoherent error" — unreachable under the store contract, see
+    `Ledger.Ctrl.conflict_log_found`). -/
+def fetchAfterConflict (op : Op) (f : Faults) (s : State) (seq : Seqs) (n : Nat) (trace : List String) : Outcome :=
+  let st : State := { s with seq := seq }
+  if alreadyCanceled f n = true then
+    { state := st, resp := { err := some (.store .canceled) },
+      trace := trace ++ [traceEntry "root" "ReadLogWithIdempotencyKey" "canceled"] }
+  else match fires f n with
+  | some kind =>
+    { state := st, resp := { err := some (.store kind.err) },
+      trace := trace ++ [traceEntry "root" "ReadLogWithIdempotencyKey" kind.err.toString] }
+  | none =>
+    match readLogWithIK op.ik s.db with
+    | none => { state := st, resp := { err := some .panic },
+                trace := trace ++ [traceEntry "root" "ReadLogWithIdempotencyKey" "not-found"] }
+    | some log =>
+      if log.ihash ≠ "" ∧ log.ihash ≠ op.ihash then
+        { state := st, resp := { err := some .invalidIdempotencyInput },
+          trace := trace ++ [traceEntry "root" "ReadLogWithIdempotencyKey" ""] }
+      else { state := st, resp := { hit := true, log := some log },
+             trace := trace ++ [traceEntry "root" "ReadLogWithIdempotencyKey" ""] }
+
+/-- `forgeLogRetry`: `runTx` again and again while it answers a deadlock; an
+    idempotency-key conflict ends in the lookup above, any other failure in
+    `recordedOutcome`. `fuel` bounds the model's recursion; one more than the number
+    of planned faults is always enough (`Ledger.Ctrl.retryLoop_fuel_enough`: only an
+    injected fault produces a deadlock, and each fires once). -/
+def retryLoop (strict : Bool) (op : Op) (f : Faults) (commitFault : Bool) (s : State) :
+    Nat → Nat → Nat → Seqs → Nat → List String → Outcome
+  | 0, _, _, seq, _, trace =>
+    { state := { s with seq := seq }, resp := { err := some .outOfFuel }, trace := trace }
+  | fuel + 1, i, tx, seq, n, trace =>
+    match runTx strict op f commitFault s i tx seq n trace with
+    | .done o => o
+    | .failed e seq' n' trace' =>
+      if e = .store .deadlock then
+        -- `i`: attempt number (what the runtime oracle is indexed by); `tx`: number of the
+        -- transaction handle (a failed BeginTX opens none)
+        retryLoop strict op f commitFault s fuel (i + 1) (if (fires f (n + 1)).isSome then tx else tx + 1) seq' n' trace'
+      else if e = .store .ikConflict then fetchAfterConflict op f s seq' (n' + 1) trace'
+      else recordedOutcome op f s (n' + 1)
+        { state := { s with seq := seq' }, resp := { err := some e }, trace := trace' }
+
+def forgeLog (strict : Bool) (op : Op) (f : Faults) (commitFault : Bool) (s : State) : Outcome :=
   match fires f 1 with
   | some kind =>
     { state := s, resp := { err := some (.store kind.err) }, trace := [traceEntry "root" "BeginTX" kind.err.toString] }
@@ -412,18 +467,18 @@ def forgeLog (strict : Bool) (op : Op) (f : Option Fault) (commitFault : Bool) (
       match run op.now "t1" f (runLog strict op.kind op.ik op.ihash op.sv 1) st1 with
       | (.error e, st2) =>
         if e = .store .deadlock ∨ e = .store .ikConflict then
-          retry strict op f commitFault s
-            { st2 with n := st2.n + 1, trace := st2.trace ++ [rollbackEntry "t1" f (st2.n + 1)] }
+          retryLoop strict op f commitFault s (f.length + 1) 2 2 st2.seq (st2.n + 1)
+            (st2.trace ++ [rollbackEntry "t1" f (st2.n + 1)])
         else failedThenRecorded op s st2 "t1" f e
       | (.ok log, st2) => finish s st2 "t1" f commitFault op.dry log
 
 /-- One write operation without faults. -/
 def step (strict : Bool) (s : State) (op : Op) : State × Resp :=
-  let o := forgeLog strict op none false s
+  let o := forgeLog strict op [] false s
   (o.state, o.resp)
 
-/-- One write operation with a fault at the `k`-th store call (or at COMMIT). -/
-def stepF (strict : Bool) (s : State) (op : Op) (f : Option Fault) (commitFault : Bool) : State × Resp :=
+/-- One write operation under a fault plan (faults at given store calls, failing COMMIT). -/
+def stepF (strict : Bool) (s : State) (op : Op) (f : Faults) (commitFault : Bool) : State × Resp :=
   let o := forgeLog strict op f commitFault s
   (o.state, o.resp)
 
